@@ -294,6 +294,10 @@ def membersStr (ms : List Spec.Member) : String :=
 
 def specOp (op : String) (args : List String) : Option String :=
   match op, args with
+  | "specDepth", [d] => do
+    -- nesting depth of a valid document (anything else: no statement)
+    let d ← hexToBytes d
+    pure (if Spec.validDoc Gen.skipMaxDepth d.toList then s!"{Spec.nestDepth d.toList}" else "any")
   | "specFast", [lim, d] => do
     let d ← hexToBytes d; let lim ← lim.toNat?
     pure (match Spec.valueEnd (some lim) d.toList with | some e => s!"ok {e}" | none => "any")
